@@ -3,9 +3,11 @@ ESCAPE = "Escape.v byte-exact models of url.QueryEscape/QueryUnescape, url.Value
 
 PROPS = {
     "C14": dict(
-        model_files=["Base", "Escape", "SchemaDefs", "ConcDefs", "Generated", "CorrDiff", "Redirect"],
+        model_files=["Base", "Escape", "SchemaDefs", "ConcDefs", "Generated", "CorrDiff", "Redirect",
+                     "GenPrelude", "GenPreludeRedirect", "GenRedirect", "P_GenRedirect"],
         trusted_base=[KERNEL, GEN, HARNESS, ESCAPE,
                       "hand-written model Redirect.v (url.Values Add/Get, url.ParseQuery as used by URL.Query, tail of URL.String, buildAuthURLFromDocument, buildLogoutURLFromDocument, signatureInputString) tied to build_request.go and net/url by whole-URL byte comparison",
+                      "function-body translator gen/funcs.go + gen/unit_Redirect.go: signatureInputString, build{Auth,Logout}URLFromDocument and the exported wrappers are re-translated from build_request.go on every run (GenRedirect.v) and proved equal to Redirect.v for all inputs (P_GenRedirect.v); trusted there: the binding table of unit_Redirect.go (url.Values Add/Get/Encode, URL.Query/String/RawQuery, bytes.Buffer, base64, url.QueryEscape -> the model functions of Redirect.v/Escape.v; flate.NewWriter(DefaultCompression) never fails, Write/Close on a bytes.Buffer return no error; SigningContext() non-nil), non-nil receiver/document, and the no-second-reference discipline for the buffer/writer/map objects enforced by the translator",
                       "goxmldsig v1.5.0 signature-method table and SetSignatureMethod/GetSignatureMethodIdentifier (hand-written from the pinned dependency, exercised with RSA, ECDSA and Ed25519 keys)",
                       "RSA PKCS#1 v1.5 / ECDSA verification by Go's crypto library identifies which octets were signed (unforgeability is the cryptographic assumption)"],
         assumptions=["url.Parse's split of the IdP URL (text before the query, raw query, escaped fragment), etree's serialisation of the document, DEFLATE and the signer are oracles: theorems hold for every answer; the harness inflates SAMLRequest and compares with the document",
